@@ -17,9 +17,10 @@ func init() {
 			ruleB4(c)
 			ruleB2(c)
 			ruleB5(c)
+			ruleA3(c) // a plugin that subscribes with an empty mask is subscribed to everything, so it hears of later creations
 			ruleB3(c) // a failed synchronization leaves a closed plugin, which can never become active
 		},
-		explanation: "Decides the typestate of the synchronization lock: requestPluginSync/finishedPluginSync are exactly the exclusive Lock/Unlock and BlockPluginSync/Unblock exactly the shared RLock/RUnlock of the same Adaptation.syncLock, Unblock releasing at most once per block; in the accept loop the runtime's state snapshot (the call of the sync callback with the plugin's synchronize) and the activation (append to the plugin list) both happen with the exclusive lock held, the lock is released exactly once on every path from the acquisition to the next iteration or exit; the activation depends on the snapshot having succeeded, happens under the adaptation lock and is followed by the sort; no other code path adds a plugin to the active list except start-up. BlockPluginSync holds the shared lock at every exit; a deadline on the snapshot's context is started only after the sync lock was acquired. Every failing return of plugin.synchronize is preceded by closing the plugin, and the start-up sync callback itself never reports an error.",
+		explanation: "Decides the typestate of the synchronization lock: requestPluginSync/finishedPluginSync are exactly the exclusive Lock/Unlock and BlockPluginSync/Unblock exactly the shared RLock/RUnlock of the same Adaptation.syncLock, Unblock releasing at most once per block; in the accept loop the runtime's state snapshot (the call of the sync callback with the plugin's synchronize) and the activation (append to the plugin list) both happen with the exclusive lock held, the lock is released exactly once on every path from the acquisition to the next iteration or exit; the activation depends on the snapshot having succeeded, happens under the adaptation lock and is followed by the sort; no other code path adds a plugin to the active list except start-up. BlockPluginSync holds the shared lock at every exit; a deadline on the snapshot's context is started only after the sync lock was acquired. Every failing return of plugin.synchronize is preceded by closing the plugin, and the start-up sync callback itself never reports an error. An empty subscription mask is widened to all events.",
 		notDecided: []string{
 			"the runtime's side of the contract (creating containers inside a sync block)",
 			"that sync.RWMutex excludes readers and writers",
